@@ -101,6 +101,43 @@ def stage_check_mode_grid(ctx, e):
                                        "output": out[-400:]})
 
 
+def stage_lookup_lists(ctx, e, nidx):
+    """a look-up error inside a list of names: the four commands with a repeatable --acq option (and their --cancel forms),
+    in update mode, with one acquisition that exists and one that does not, in both orders.  The index must not change; the
+    same command without the unknown name is run as a control (it usually does change the index)."""
+    forms = [("node clean", lambda n, g: ["node", "clean", n, "--force", "--archive-ok"]),
+             ("node clean --now", lambda n, g: ["node", "clean", n, "--force", "--archive-ok", "--now"]),
+             ("node clean --cancel", lambda n, g: ["node", "clean", n, "--force", "--cancel"]),
+             ("node verify", lambda n, g: ["node", "verify", n, "--force", "--all"]),
+             ("node verify --cancel", lambda n, g: ["node", "verify", n, "--force", "--cancel"]),
+             ("node sync", lambda n, g: ["node", "sync", n, g, "--force"]),
+             ("node sync --cancel", lambda n, g: ["node", "sync", n, g, "--force", "--cancel"]),
+             ("group sync", lambda n, g: ["group", "sync", g, n, "--force"]),
+             ("group sync --cancel", lambda n, g: ["group", "sync", g, "--all", "--force", "--cancel"])]
+    for k in range(nidx):
+        for fi, (label, mk) in enumerate(forms):
+            seed = 7000 + k
+            outcomes = []
+            for variant in ("control", "unknown-last", "unknown-first"):
+                ix = cliharness.Index(e, random.Random(seed))
+                n = ix.nodes[(k + fi) % len(ix.nodes)]
+                g = [x for x in ix.groups if x.id != n.group_id][0]
+                a = ix.acqs[k % len(ix.acqs)].name
+                extra = {"control": ["--acq", a], "unknown-last": ["--acq", a, "--acq", "NOPE"], "unknown-first": ["--acq", "NOPE", "--acq", a]}[variant]
+                argv = mk(n.name, g.name) + extra
+                before = cliharness.full_dump()
+                rc, out, exc = e.cli(argv)
+                after = cliharness.full_dump()
+                outcomes.append((variant, rc, after != before))
+                if variant != "control":
+                    ctx.case(("lookup-list", label, variant, seed), nontrivial=True)
+                    if after != before:
+                        ctx.violation(f"mutated:{label}:lookup-list", f"`alpenhorn {' '.join(argv)}` names an acquisition that does not exist "
+                                      f"but went ahead (exit code {rc}) and changed {[t for t in after if after[t] != before[t]]}",
+                                      {"kind": "cli", "argv": argv, "stdin": None, "seed": seed, "exit": rc, "output": out[-400:]})
+            ctx.count(f"lookup-list:{label}:control-{'changed' if outcomes[0][2] else 'unchanged'}")
+
+
 def run(ctx):
     ok = common.proof_stage(ctx, MODULE)
     rng = ctx.rng
@@ -133,6 +170,12 @@ def run(ctx):
                 ctx.violation(f"mutated:{meta['kind']}:{why}", f"`alpenhorn {' '.join(argv)}` ({why}) changed the index: "
                               f"{[t for t in after if after[t] != before[t]]}",
                               {"kind": "cli", "argv": argv, "stdin": stdin, "seed": seed, "exit": rc, "output": out[-500:]})
+            # a name that does not exist in the index (the generator's "NOPE") is a look-up error wherever it stands - alone, or
+            # in a list next to names that do exist: the command must not go ahead on the part it could resolve
+            if changed and "NOPE" in argv:
+                ctx.violation(f"mutated:{meta['kind']}:lookup", f"`alpenhorn {' '.join(argv)}` names something that does not exist (NOPE) "
+                              f"but changed the index (exit code {rc}): {[t for t in after if after[t] != before[t]]}",
+                              {"kind": "cli", "argv": argv, "stdin": stdin, "seed": seed, "exit": rc, "output": out[-500:]})
             if meta["mode"] != "plain":
                 chk = "--check" in argv
                 force = "--force" in argv
@@ -159,6 +202,7 @@ def run(ctx):
                                       f"applied part of its changes (tables {diff})",
                                       {"kind": "cli-fault", "argv": argv, "stdin": stdin, "seed": seed, "k": k, "exit": rc2})
         stage_check_mode_grid(ctx, e)
+        stage_lookup_lists(ctx, e, 6 if ctx.quick() else 60)
         stage_bulk(ctx, e, 260 if ctx.quick() else 1200)
     outs = common.Driver().batch(model_lines) if model_lines else []
     for line, (argv, changed, rc), o in zip(model_lines, model_meta, outs):
